@@ -911,13 +911,17 @@ class GroupBy:
             for j, result in enumerate(results_one_value):
                 result = result[:-1]  # ignore null group
                 if self._group_key_pointers is None:
-                    pointer = slice(None)
+                    pointer = slice(0, len(result))
                 else:
                     pointer = self._group_key_pointers[first_chunk_in + j]
-                combined[pointer] = numba_funcs.reduce_array_pair(
+                merged = numba_funcs.reduce_array_pair(
                     combined[pointer], result, reducer=reducer, counts=count[pointer]
                 )
-                count[pointer] += counts_one_value[j][:-1]  # ignore null group
+                block_count = counts_one_value[j][:-1]  # ignore null group
+                # a chunk that saw no value of a group contributes nothing, whatever its
+                # initial value is (dtypes without a null sentinel: bool, unsigned, small ints)
+                combined[pointer] = np.where(block_count > 0, merged, combined[pointer])
+                count[pointer] += block_count
             individual_results.append((combined, count))
 
         return individual_results
